@@ -18,7 +18,7 @@ def polar_decompose(matrix, left=True):
     if left:
         return U @ Vh, U @ (np.diag(S) @ U.transpose())
     U_matrix = Vh.transpose() @ (np.diag(S) @ Vh)
-    return matrix @ np.linalg.inv(U_matrix), U_matrix
+    return U @ Vh, U_matrix
 
 
 @nb.njit(fastmath=True)
